@@ -124,7 +124,7 @@ func c06() []*Ob {
 					}
 				}
 			}},
-		{Prop: "C06", ID: "C06.2", Engine: "FIELDS+PAIR(units)", Floor: 18,
+		{Prop: "C06", ID: "C06.2", Engine: "FIELDS+PAIR(units)", Floor: 12,
 			Desc: "summary fields survive both conversions and the merge: Min, Max, Sum, Total, NotExists, Samples of seq.SamplesContainer are read in storeapi.buildSearchResponse, stored in search.responseToQPR and updated in SamplesContainer.Merge; AggregatableSamples.NotExists and the QPR fields are merged; bin timestamps use MID.Time()+timestamppb.New on the store and AsTime().UnixMilli() on the proxy",
 			Check: func(c *Ctx) {
 				fields := []string{"Min", "Max", "Sum", "Total", "NotExists", "Samples"}
@@ -259,7 +259,7 @@ func c06() []*Ob {
 					}
 				}
 			}},
-		{Prop: "C06", ID: "C06.4", Engine: "ENUM+DIV", Floor: 3,
+		{Prop: "C06", ID: "C06.4", Engine: "ENUM+DIV", Floor: 1,
 			Desc: "switch coverage: processor.evalAgg, seq's aggregate computation and proxyapi.validateAgg handle every aggregation function; the time-bin modulo of provideExtractTimeFunc runs only for interval > 0",
 			Check: func(c *Ctx) {
 				uni := c.P.EnumConsts("seq", "AggFunc")
